@@ -121,9 +121,13 @@ def check_state(desc, sc, pats, flagsets, res, bash=True, names_tag='std'):
                     res.outcomes.add('bash-agrees')
 
 
-ODD_TREE = ['a\\', 'b', 'd\\/', 'd\\/x', '*', '[', 'a]', '!(', '{a,b}', 'a|b', '~', '-a', 'sp ace', 'e/', 'e/a\\', 'e/*', '.h\\']
-ODD_PATS = ['*', '?*', '**', '[!a]*', '*/', '*/*', '**/*', '??', '*\\\\', 'e/*']
+ODD_TREE = ['a\\', 'b', 'd\\/', 'd\\/x', '*', '[', 'a]', '!(', '{a,b}', 'a|b', '~', '-a', 'sp ace', 'e/', 'e/a\\', 'e/*', '.h\\',
+            '@(a/', '@(a/b)', '+(x/', '+(x/y)', '@(a/c']
+ODD_PATS = ['*', '?*', '**', '[!a]*', '*/', '*/*', '**/*', '??', '*\\\\', 'e/*', 'e//*', '*//', 'e//', '**//*', 'e///a\\\\', './/e//*']
 ODD_FLAGS = ['GE', 'GEO', 'GDE', 'GDEO', 'GEK', 'E', 'GEOK']
+# without EXTGLOB `@(`, `+(` ... are ordinary text (and `*`, `?` ordinary wildcards) even when a `/` and a `)` follow
+ODD_PATS_NOEXT = ['@(a/b)', '*(a/b)', '?(a/b)', '+(x/y)', '@(a/*', '*/b)', '@(a/b', '!(/b)', '*(*/*)', '@(a/c|b)']
+ODD_FLAGS_NOEXT = ['G', 'GD', '', 'GO', 'GK']
 
 
 def check_odd(res):
@@ -133,14 +137,23 @@ def check_odd(res):
         state = fsx.from_desc(ODD_TREE)
         sc.load(state)
         model = fsx.Model(state)
-        for fs in ODD_FLAGS:
+        for fs in ODD_FLAGS + ODD_FLAGS_NOEXT:
             fl = refglob.Flags(fs)
-            for text in ODD_PATS:
+            for text in (ODD_PATS if 'E' in fs else ODD_PATS + ODD_PATS_NOEXT):
                 from .. import pat as _pat
                 ast = tuple(_parse_simple(text))
                 res.n['evaluations'] += 1
                 res.n['distinct_nontrivial'] += 1
                 got, _n = real_glob(text, fs, sc.root)
+                # the bytes twin of the same call returns the encoded results
+                try:
+                    gotb = G.glob(os.fsencode(text), flags=fscommon.gflags(fs), root_dir=os.fsencode(sc.root))
+                    gotb = sorted(os.fsdecode(x) for x in gotb)
+                except Exception as e:  # noqa: BLE001
+                    gotb = type(e).__name__
+                if got is not None and gotb != sorted(got):
+                    res.add_violation(ID, run.viol('bytes-twin-differs', {'tree': ODD_TREE, 'pattern': text, 'flags': fs},
+                                                   sorted(got), gotb))
                 ref = refglob.ref_glob(model, ast, fl)
                 gotn = sorted(set(refglob.norm(x) for x in got))
                 must = sorted(set(refglob.norm(p) for p, st in ref.items() if st == 'must'))
@@ -174,8 +187,11 @@ def _parse_simple(text):
             yield _pat.Q
             i += 1
         elif c == '/':
-            yield ('sep', 1, False)
-            i += 1
+            j = i
+            while j < len(text) and text[j] == '/':
+                j += 1
+            yield ('sep', j - i, False)
+            i = j
         elif c == '[':
             j = text.index(']', i)
             yield _pat.br(text[i:j + 1])
@@ -269,6 +285,13 @@ def replay(v):
             got = sorted(set(refglob.norm(x) for x in real_glob(pp, f2, sc.root)[0] or []))
             return {'violates': got != ind, 'observed': [x.replace(sc.root, '<ROOT>') for x in got]}
         got, nscan = real_glob(inp['pattern'], inp['flags'], sc.root)
+        if v['kind'] == 'bytes-twin-differs':
+            try:
+                gotb = sorted(os.fsdecode(x) for x in G.glob(os.fsencode(inp['pattern']), flags=fscommon.gflags(inp['flags']),
+                                                             root_dir=os.fsencode(sc.root)))
+            except Exception as e:  # noqa: BLE001
+                gotb = type(e).__name__
+            return {'violates': gotb != sorted(got or []), 'observed': gotb}
         if v['kind'] == 'no-termination':
             return {'violates': got is None, 'observed': {'scandir_calls': nscan}}
         if got is None:
